@@ -378,6 +378,22 @@ namespace
         H* clone() override { Suspend s; auto* h = new HProxy(P(static_cast<const P&>(*w))); h->kind = kind; h->ref = ref; h->owned = owned; h->writable = writable; return h; }
     };
 
+    // proxy_wrapper(x) for an lvalue (or const lvalue) of CLASS type: whatever type the factory hands out, it has to stand
+    // for x itself - everything goes through the conversion to (const) P&, so the holder does not depend on the wrapper type
+    template <class W, bool CONST> struct HClassProxy : HW<W>
+    {
+        using HW<W>::HW;
+        uint64_t read(int) override { return static_cast<const P&>(static_cast<const W&>(*this->w)).id; }
+        int forms() const override { return 2; }
+        void write(uint64_t v, int) override { do_write(v, std::integral_constant<bool, !CONST>()); }
+        void do_write(uint64_t v, std::true_type) { static_cast<P&>(*this->w).id = v; }
+        void do_write(uint64_t, std::false_type) {}
+        const void* addr() override { return std::addressof(static_cast<const P&>(static_cast<const W&>(*this->w))); }
+        const void* addr_amp() override { return addr(); }
+        H* clone() override { auto* h = new HClassProxy<W, CONST>(static_cast<const W&>(*this->w)); h->kind = this->kind; h->ref = this->ref; h->owned = this->owned; h->writable = this->writable; h->flag_addr = this->flag_addr; h->value_addr = this->value_addr; return h; }
+    };
+    template <bool CONST, class W> H* make_class_proxy(W&& w) { return new HClassProxy<std::decay_t<W>, CONST>(std::forward<W>(w)); }
+
     // xcomplex<CTR, CTI>
     template <class CT> struct HComplex : HW<xtl::xcomplex<CT, CT>>
     {
@@ -611,7 +627,9 @@ namespace
                 else { out = new HMasked<P, bool>(std::move(*tmp), true); name = "masked_value_xvalue"; }
                 break;
             case 6:   // proxy_wrapper
-                if (cat <= 1) { out = new HIntProxy(xtl::proxy_wrapper(f.iv)); name = "int_proxy_wrapper_lvalue"; aliases = true; }
+                if (cat == 0 && (id & 1)) { out = make_class_proxy<false>(xtl::proxy_wrapper(f.obj)); name = "class_proxy_wrapper_lvalue"; }
+                else if (cat == 1 && (id & 1)) { out = make_class_proxy<true>(xtl::proxy_wrapper(xtl::as_const(f.obj))); name = "class_proxy_wrapper_const_lvalue"; out->writable = false; }
+                else if (cat <= 1) { out = new HIntProxy(xtl::proxy_wrapper(f.iv)); name = "int_proxy_wrapper_lvalue"; aliases = true; }
                 else { out = new HProxy(xtl::proxy_wrapper(std::move(*tmp))); name = "proxy_wrapper_xvalue"; }
                 break;
             case 7:   // xcomplex over closures
